@@ -97,8 +97,11 @@ def build_param_solver(pcirc, name=None):
     sts = []
     for comp in pcirc["comps"]:
         n = len(comp["pins"])
-        m = AM(comp["pins"], comp["idx"], gen.mat_np(comp["S0"], n, n), gen.mat_np(comp["S1"], n, n),
-               pname=comp["param"], default=float(comp.get("default", 0)))
+        if comp.get("fixed"):
+            m = L.Model(pin_dic={L.Pin(p): i for p, i in zip(comp["pins"], comp["idx"])}, Smatrix=gen.mat_np(comp["S0"], n, n))
+        else:
+            m = AM(comp["pins"], comp["idx"], gen.mat_np(comp["S0"], n, n), gen.mat_np(comp["S1"], n, n),
+                   pname=comp["param"], default=float(comp.get("default", 0)))
         sts.append(L.Structure(model=m))
     sol = L.Solver(name=name)
     for st in sts:
